@@ -1,6 +1,80 @@
-"""C04 via the shared algorithm harness (hv.algo_check)."""
-from .. import algo_check
+"""C04: a solution is exactly the demand closure of the requested forms.
+
+Part 1 (deciding, generated programs): the shared algorithm harness
+(hv.algo_check): on every solved end state solution keys == required lines of
+participating forms + lines read by contained lines; Solver.forms == their
+forms; on partial solutions nothing undemanded is stored.
+Part 2 (shipped forms): for every optional form instance F of the whole-return
+model (K=2 copies) z3 produces a solved return in which F takes part and one
+in which it does not; each witness is run through the real Solver and the set
+of (form, line) keys of the real solution must equal the model's demanded set
+{L : dem[L]} and Solver.forms the model's {F : in[F]}.
+"""
+import os
+
+from .. import algo_check, common, retmodel
+from .. import terms as tm
+
+
+def year_task(arg):
+    year, K, S = arg
+    os.environ['HV_PROCS'] = '1'
+    lf = retmodel.Lifter(year, K, S, ['1040'], ft='ref', timeout_ms=30000)
+    rm = lf.rm
+    res = {'year': year, 'obl': [], 'viol': [], 'samples': []}
+    for f in rm.forms:
+        if f in rm.requested:
+            continue
+        for want in (True, False):
+            extra = [rm.solved, rm.inform[f] if want else tm.not_(rm.inform[f])]
+            if ':1' in f:
+                extra.append(rm.inform[f.replace(':1', ':0')])
+            r, inputs, m = lf.query(extra)
+            nm = 'ty%d/closure/%s %s' % (year, f, 'present' if want else 'absent')
+            if r != 'sat':
+                res['obl'].append((nm, 'unknown' if r == 'unknown' else 'unsat', 0.0))
+                continue
+            model_keys = sorted(n for n in rm.lines if lf.mv(m, rm.dem[n]))
+            model_forms = sorted(x for x in rm.forms if lf.mv(m, rm.inform[x]))
+            out = common.run_real(['solve'], {'year': year, 'forms': ['1040'], 'inputs': inputs})
+            if not out['solved']:
+                res['obl'].append((nm, 'unknown', 0.0))
+                continue
+            real_keys = sorted(out['solution'])
+            real_forms = sorted(out['forms'])
+            ok = real_keys == model_keys and real_forms == model_forms
+            res['obl'].append((nm, 'unsat' if ok else 'sat', 0.0))
+            if len(res['samples']) < 2:
+                res['samples'].append({'obligation': nm, 'solution_lines': len(real_keys), 'forms': real_forms, 'equal_to_model_closure': ok})
+            if not ok:
+                missing = [k for k in model_keys if k not in real_keys]
+                extra_ = [k for k in real_keys if k not in model_keys]
+                res['viol'].append({'key': 'ty%d:closure:%s' % (year, f.split(':')[0]),
+                                    'what': 'solved return (%s %s): solution lacks demanded lines %s%s / holds undemanded lines %s; forms %s vs closure %s' % (
+                                        f, 'present' if want else 'absent', missing[:5], '...' if len(missing) > 5 else '', extra_[:5], real_forms, model_forms),
+                                    'replay': {'kind': 'solve', 'year': year, 'forms': ['1040'], 'inputs': inputs,
+                                               'expect': {'kind': 'keys', 'keys': model_keys, 'forms': model_forms}}})
+    return res
+
+
+def extra(c, tier):
+    years = [2023] if tier == 'quick' else [2021, 2022, 2023]
+    K, S = (2, 2) if tier == 'quick' else (2, 3)
+    retmodel.preload([(y, K, {'S': S, 'ft': 'ref', 'cents': True}) for y in years])
+    os.environ['HV_PRELOADED'] = '1'
+    for r in common.pmap(year_task, [(y, K, S) for y in years]):
+        for nm, res, dt in r['obl']:
+            c.obligation(nm, res, dt)
+        c.samples.extend(r['samples'][:1])
+        for v in r['viol']:
+            out = common.run_real(['solve'], v['replay'])
+            c.replays_run += 1
+            if out.get('reproduced'):
+                c.violation(v['key'], v['what'], v['replay'])
+            else:
+                c.inconclusive.append('witness did not reproduce: ' + v['key'])
+    c.bounds['shipped_forms_part'] = {'years': years, 'copies': K, 'copies_total': S, 'witnesses': 'one solved return with and one without each optional form instance'}
 
 
 def run(tier):
-    return algo_check.run_property('C04', tier)
+    return algo_check.run_property('C04', tier, extra=extra)
